@@ -1,10 +1,14 @@
 package sim
 
 import (
+	"context"
 	"fmt"
 	"strings"
 
 	"github.com/ipfs/go-cid"
+	"github.com/libp2p/go-libp2p/core/peer"
+
+	"github.com/ipfs/go-graphsync"
 
 	gsimpl "github.com/ipfs/go-graphsync/impl"
 )
@@ -17,6 +21,9 @@ type c21 struct {
 	dags       []*DAG
 	cancel     map[string]int // label -> step from which the caller may cancel
 	cancelled  map[string]bool
+	pauseAt    map[graphsync.RequestID]int64 // responder pauses the response at this block (once)
+	pausedAt   map[graphsync.RequestID]int   // step at which it did
+	resumed    map[graphsync.RequestID]bool
 	maxIn      int
 	maxPerPeer int
 	maxOut     int
@@ -25,7 +32,9 @@ type c21 struct {
 	peakOut    int
 }
 
-func newC21() Scenario { return &c21{cancel: map[string]int{}, cancelled: map[string]bool{}} }
+func newC21() Scenario {
+	return &c21{cancel: map[string]int{}, cancelled: map[string]bool{}, pauseAt: map[graphsync.RequestID]int64{}, pausedAt: map[graphsync.RequestID]int{}, resumed: map[graphsync.RequestID]bool{}}
+}
 
 func (s *c21) Name() string     { return "work-limits" }
 func (s *c21) Property() string { return "C21" }
@@ -65,6 +74,18 @@ func (s *c21) Build(w *World) {
 		s.reqs = append(s.reqs, r)
 		if t.Chance(150) {
 			s.cancel[r.Label] = t.Draw(60)
+		} else if t.Chance(200) {
+			// the responder pauses this response at a block and its operator resumes it later
+			s.pauseAt[r.ID] = int64(1 + t.Draw(3))
+		}
+	}
+	s.b.OnOutgoingBlock = func(p peer.ID, r graphsync.RequestData, b graphsync.BlockData, a graphsync.OutgoingBlockHookActions) {
+		if at, ok := s.pauseAt[r.ID()]; ok && b.Index() == at {
+			if _, done := s.pausedAt[r.ID()]; !done {
+				s.pausedAt[r.ID()] = w.Step
+				w.Probe("c21-pause")
+				a.PauseResponse()
+			}
 		}
 	}
 	s.descr = fmt.Sprintf("maxIn=%d perPeer=%d maxOut=%d peers=%d reqs=%d cancels=%d", s.maxIn, s.maxPerPeer, s.maxOut, npeers, nreq, len(s.cancel))
@@ -82,6 +103,19 @@ func (s *c21) Build(w *World) {
 					w.Probe("c21-cancel")
 					w.Effect("act %s %s ctxcancel", r.Node.Name, r.Label)
 					r.Cancel()
+				}))
+			}
+		}
+		for _, r := range s.reqs {
+			r := r
+			if at, ok := s.pausedAt[r.ID]; ok && !s.resumed[r.ID] && w.Step > at+3 && !r.Done() {
+				evs = append(evs, Inject("api", "act|B|"+r.Label+"|unpause", func(string) {
+					s.resumed[r.ID] = true
+					w.Probe("c21-resume")
+					go func() {
+						err := s.b.GS.Unpause(context.Background(), r.ID)
+						w.Effect("act B %s unpause returned %v", r.Label, err)
+					}()
 				}))
 			}
 		}
